@@ -58,7 +58,7 @@ FillFold(docs, i, acc, prop) ==
        ELSE FillFold(docs, i + 1, Append(acc, d), prop \/ d[1] = "ab")
 
 Norm(d) ==
-  CASE d[1] \in {"t", "nil", "hl", "align", "pop"} -> d
+  CASE d[1] \in {"t", "nil", "hl", "align", "pop", "pstr", "unmodelled"} -> d
     [] d[1] = "ann" -> <<"ann", d[2], NormDoc(d[3])>>
     [] d[1] = "cat" ->
          LET r == CatFold(d[2], 1, <<>>, FALSE)
@@ -83,6 +83,19 @@ Norm(d) ==
          IF Len(r[1]) = 0 THEN NILT
          ELSE IF r[2] THEN <<"ab", <<"fill", r[1]>>>> ELSE <<"fill", r[1]>>
 
+\* pretty_str's Contextual (prettyprinter.py: pretty_str.evaluator), for strings whose
+\* single-line form needs no escaping: <<"pstr", codes, isbytes>>.  It returns the
+\* single-line literal when len(s) + 2 <= available width; the multi-line forms are
+\* outside this model (<<"unmodelled">>; they are always_break documents).
+TextT(codes) == <<"t", Len(codes), 0, Len(codes), codes>>
+StrFlat(d) ==
+  LET q == <<39>>
+      body == IF Len(d[2]) = 0 THEN NILT ELSE <<"ann", 6, TextT(d[2])>>
+  IN <<"cat", << IF d[3] THEN <<"ann", 7, TextT(<<98>>)>> ELSE TextT(<<>>),
+                 <<"ann", 6, <<"cat", <<TextT(q), body, TextT(q)>>>>>> >>>>
+EvalStr(d, ind, col, pw, R) ==
+  IF Len(d[2]) + 2 <= Min(pw - col, ind + R - col) THEN StrFlat(d) ELSE <<"unmodelled">>
+
 \* FlatChoice.when_broken / when_flat.  In a tree-shaped document every
 \* FlatChoice object is reached in one mode only, so when_flat is returned
 \* un-normalised (its normalisation is armed only after when_broken was read).
@@ -90,13 +103,14 @@ FcBroken(d) == IF d[4] = 1 THEN NormDoc(d[2]) ELSE d[2]
 FcFlat(d) == d[3]
 
 -----------------------------------------------------------------------------
-(* layout.py: the two fitting predicates (one operator, `smart` selects)    *)
+(* layout.py: the two fitting predicates (one operator, `smart` selects);    *)
+(* P = <<page_width, ribbon_width>>                                          *)
 
-Rev(ind, m, docs) == [j \in 1..Len(docs) |-> <<ind, m, docs[Len(docs) + 1 - j]>>]
+Rev(ind, m, docs) == [j \in 1..Len(docs) |-> <<ind, m, docs[Len(docs) + 1 - j]>>] \o <<>>
 Pop(st) == SubSeq(st, 1, Len(st) - 1)
 
 RECURSIVE FitsI(_, _, _, _, _, _)
-FitsI(smart, pw, mn, maxw, left, st) ==
+FitsI(smart, P, mn, maxw, left, st) ==
   IF left < 0 THEN FALSE
   ELSE IF Len(st) = 0 THEN TRUE
   ELSE LET top == st[Len(st)]
@@ -105,31 +119,35 @@ FitsI(smart, pw, mn, maxw, left, st) ==
            m == top[2]
            d == top[3]
            k == d[1]
-       IN CASE k = "nil" -> FitsI(smart, pw, mn, maxw, left, rest)
-            [] k = "t" -> FitsI(smart, pw, mn, maxw, left - d[2], rest)
-            [] k \in {"cat", "fill"} -> FitsI(smart, pw, mn, maxw, left, rest \o Rev(ind, m, d[2]))
-            [] k = "ann" -> FitsI(smart, pw, mn, maxw, left, Append(rest, <<ind, m, d[3]>>))
-            [] k = "nest" -> FitsI(smart, pw, mn, maxw, left, Append(rest, <<ind + d[2], m, d[3]>>))
+       IN CASE k = "nil" -> FitsI(smart, P, mn, maxw, left, rest)
+            [] k = "t" -> FitsI(smart, P, mn, maxw, left - d[2], rest)
+            [] k \in {"cat", "fill"} -> FitsI(smart, P, mn, maxw, left, rest \o Rev(ind, m, d[2]))
+            [] k = "ann" -> FitsI(smart, P, mn, maxw, left, Append(rest, <<ind, m, d[3]>>))
+            [] k = "nest" -> FitsI(smart, P, mn, maxw, left, Append(rest, <<ind + d[2], m, d[3]>>))
             [] k = "ab" -> FALSE
             [] k = "hl" -> IF smart /\ ind > mn
-                           THEN FitsI(smart, pw, mn, maxw, pw - ind, rest)
+                           THEN FitsI(smart, P, mn, maxw, P[1] - ind, rest)
                            ELSE TRUE
-            [] k = "fc" -> FitsI(smart, pw, mn, maxw, left,
+            [] k = "fc" -> FitsI(smart, P, mn, maxw, left,
                                  Append(rest, <<ind, m, IF m = FLAT THEN FcFlat(d) ELSE FcBroken(d)>>))
-            [] k = "grp" -> FitsI(smart, pw, mn, maxw, left, Append(rest, <<ind, FLAT, d[2]>>))
+            [] k = "grp" -> FitsI(smart, P, mn, maxw, left, Append(rest, <<ind, FLAT, d[2]>>))
             \* Contextual: NOTE the column handed to the document is relative
             \* (max_width - chars_left), not the output column.
-            [] k = "align" -> FitsI(smart, pw, mn, maxw, left,
+            [] k = "align" -> FitsI(smart, P, mn, maxw, left,
                                     Append(rest, <<ind, m, NormDoc(<<"nest", (maxw - left) - ind, d[2]>>)>>))
-            [] k = "pop" -> FitsI(smart, pw, mn, maxw, left, rest)
+            [] k = "pop" -> FitsI(smart, P, mn, maxw, left, rest)
+            \* pretty_str's Contextual, evaluated with the RELATIVE column like align
+            [] k = "pstr" -> FitsI(smart, P, mn, maxw, left,
+                                   Append(rest, <<ind, m, NormDoc(EvalStr(d, ind, maxw - left, P[1], P[2]))>>))
+            [] k = "unmodelled" -> FALSE      \* the multi-line string forms are always_break documents
 
 -----------------------------------------------------------------------------
 (* layout.py: best_layout.  Machine state = [st, col, out].                 *)
 
-TextOut(d) == [k |-> "t", n |-> d[2], t |-> d[3], a |-> 0, r |-> d[4]]
-LineOut(i) == [k |-> "nl", n |-> i, t |-> 0, a |-> 0, r |-> 0]
-PushOut(a) == [k |-> "push", n |-> 0, t |-> 0, a |-> a, r |-> 0]
-PopOut(a) == [k |-> "pop", n |-> 0, t |-> 0, a |-> a, r |-> 0]
+TextOut(d) == [k |-> "t", n |-> d[2], t |-> d[3], a |-> 0, r |-> d[4], s |-> IF Len(d) >= 5 THEN d[5] ELSE <<>>]
+LineOut(i) == [k |-> "nl", n |-> i, t |-> 0, a |-> 0, r |-> 0, s |-> <<>>]
+PushOut(a) == [k |-> "push", n |-> 0, t |-> 0, a |-> a, r |-> 0, s |-> <<>>]
+PopOut(a) == [k |-> "pop", n |-> 0, t |-> 0, a |-> a, r |-> 0, s |-> <<>>]
 
 \* name of the elif branch taken for the top of the stack (for coverage)
 Branch(s) == s.st[Len(s.st)][3][1]
@@ -157,7 +175,7 @@ StepI(smart, W, R, s) ==
        [] k = "fc" -> to(Append(rest, <<ind, m, IF m = BREAK THEN FcBroken(d) ELSE FcFlat(d)>>))
        [] k = "nest" -> to(Append(rest, <<ind + d[2], m, d[3]>>))
        [] k = "grp" ->
-            IF FitsI(smart, W, mn, avail, avail, Append(rest, <<ind, FLAT, d[2]>>))
+            IF FitsI(smart, <<W, R>>, mn, avail, avail, Append(rest, <<ind, FLAT, d[2]>>))
             THEN to(Append(rest, <<ind, FLAT, d[2]>>))
             ELSE to(Append(rest, <<ind, BREAK, d[2]>>))
        [] k = "fill" ->
@@ -166,7 +184,7 @@ StepI(smart, W, R, s) ==
             ELSE
             LET flatC == <<ind, FLAT, docs[1]>>
                 brokC == <<ind, BREAK, docs[1]>>
-                doesFit == FitsI(FALSE, W, mn, avail, avail, <<flatC>>)
+                doesFit == FitsI(FALSE, <<W, R>>, mn, avail, avail, <<flatC>>)
             IN IF Len(docs) = 1 THEN to(Append(rest, IF doesFit THEN flatC ELSE brokC))
                ELSE
                LET flatW == <<ind, FLAT, docs[2]>>
@@ -176,13 +194,16 @@ StepI(smart, W, R, s) ==
                                    ELSE to(rest \o <<brokW, brokC>>))
                   ELSE
                   LET remaining == <<ind, m, <<"fill", SubSeq(docs, 3, Len(docs))>>>>
-                      bothFit == FitsI(FALSE, W, mn, avail, avail,
+                      bothFit == FitsI(FALSE, <<W, R>>, mn, avail, avail,
                                        << <<ind, FLAT, <<"cat", SubSeq(docs, 1, 2)>>>> >>)
                   IN IF bothFit THEN to(rest \o <<remaining, flatW, flatC>>)
                      ELSE IF doesFit THEN to(rest \o <<remaining, brokW, flatC>>)
                      ELSE to(rest \o <<remaining, brokW, brokC>>)
        [] k = "ab" -> to(Append(rest, <<ind, BREAK, d[2]>>))
        [] k = "pop" -> [st |-> rest, col |-> col, out |-> Append(s.out, PopOut(d[2]))]
+       [] k = "pstr" -> to(Append(rest, <<ind, m, NormDoc(EvalStr(d, ind, col, W, R))>>))
+       [] k = "unmodelled" -> [st |-> rest, col |-> col,
+                               out |-> Append(s.out, [k |-> "unmodelled", n |-> 0, t |-> 0, a |-> 0, r |-> 0, s |-> <<>>])]
 
 \* ribbon_width = max(0, min(width, round(ribbon_frac * width))), Python's
 \* round() is round-half-to-even; ribbon_frac = fn/fd exactly (dyadic).
@@ -209,7 +230,8 @@ Layout(term, W, fn, fd, smart) == RunI(smart, W, Ribbon(W, fn, fd), InitI(term))
 RECURSIVE Wt(_), WtSeq(_, _)
 WtSeq(docs, i) == IF i > Len(docs) THEN 0 ELSE Wt(docs[i]) + WtSeq(docs, i + 1)
 Wt(d) ==
-  CASE d[1] \in {"t", "nil", "hl", "pop"} -> 1
+  CASE d[1] \in {"t", "nil", "hl", "pop", "unmodelled"} -> 1
+    [] d[1] = "pstr" -> 12
     [] d[1] = "cat" -> 1 + WtSeq(d[2], 1)
     [] d[1] = "fill" -> 1 + WtSeq(d[2], 1) + Len(d[2])
     [] d[1] \in {"grp", "ab"} -> 1 + Wt(d[2])
